@@ -162,6 +162,20 @@ Proof.
   intros tg p Htg. cbn in Htg. destruct Htg as [<-|[<-|[<-|[]]]]; destruct p as [[|q|q]|]; vm_compute; reflexivity.
 Qed.
 
+(* ---- exported names and flags ---- *)
+Theorem names_ok_holds : names_ok = true.
+Proof. vm_compute. reflexivity. Qed.
+
+(* _HAS_FIXED_PORT_ID_ (C) / _traits_::HasFixedPortID (C++) is true exactly when the type has a fixed port id (0 included) *)
+Theorem exported_port_flag_exact : forall p svc,
+  exported_flag TgtC n_c_has_port p svc = Some (match p with Some _ => true | None => false end) /\
+  exported_flag TgtCpp n_cpp_has_port p svc = Some (match p with Some _ => true | None => false end).
+Proof. intros [[|q|q]|] [|]; split; vm_compute; reflexivity. Qed.
+
+(* _traits_::IsServiceType is true exactly for the request / response types of a service *)
+Theorem cpp_is_service_type_exact : forall p svc, exported_flag TgtCpp n_cpp_is_service_type p svc = Some svc.
+Proof. intros [[|q|q]|] [|]; vm_compute; reflexivity. Qed.
+
 (* ---- the up-front capacity check ---- *)
 Definition good_capcheck (cc : capcheck) : bool :=
   cc_first cc && xorb (cc_cap_in_bits cc) (cc_lhs_times8 cc)
@@ -230,10 +244,10 @@ Qed.
 (* ---- undersized buffers ---- *)
 (* "nothing written" is C04's theorem about the instrumented walker (Codec/WalkerSafe.v: the access log is empty) *)
 Theorem too_small_refused : forall tg P c t v o buf cap q, In tg buffer_targets -> is_comp t = true ->
-  exported tg KBufferBytes t = Some q -> Z.of_nat cap < q -> up_front c = true ->
+  exported tg KBufferBytes t = Some q -> Z.of_nat cap < q -> plan_ok c -> up_front c = true ->
   ser_spec t v cap = Err ETooSmall /\ walk_ser P t v buf cap = Err ETooSmall /\ walk_ser_safe c t o cap = (Err ETooSmall, []).
 Proof.
-  intros tg P c t v o buf cap q Htg Hc Hq Hlt Hup.
+  intros tg P c t v o buf cap q Htg Hc Hq Hlt Hpl Hup.
   destruct (exported_buffer_bytes tg t Htg Hc) as [q' [Hq' H8]]. rewrite Hq in Hq'. injection Hq' as <-.
   assert (Hcap : (8 * cap < bmax t)%nat) by lia.
   split; [|split].
